@@ -296,7 +296,165 @@ def case_maskapi(ctx, inp):
         ctx.branch("maskapi-src-" + src)
 
 
-CASES = {"maskplan": case_maskplan, "maskapi": case_maskapi}
+# --------------------------------------------------------------------------------------
+# (b) value pieces of setitem_array
+# --------------------------------------------------------------------------------------
+
+def _enc_vix(i):
+    import numpy as np
+    if isinstance(i, slice):
+        return [Sym("sl"), [i.start, i.stop, i.step]]
+    if i is Ellipsis:
+        return [Sym("ellipsis")]
+    return [Sym("arr"), [int(t) for t in np.asarray(i).tolist()]]
+
+
+def case_vpieces(ctx, inp):
+    """Per axis of the real plan of setitem_array: the (array position, value position) pairs every block assigns — NumPy's
+    own pairing of the real block index with the real value index — vs `axisBlockPairsV`; NumPy's own global pairing of the
+    original index vs `axisSelectedV`; every recorded value index evaluated by NumPy vs `vixEval`."""
+    import numpy as np
+    import dask.array as da
+    from dask.array.slicing import parse_assignment_indices, setitem_array
+    from dask.core import flatten
+    from props.c21 import _Recorder, _cum, _to_index, _value
+    shape, chunks = tuple(inp["shape"]), tuple(tuple(c) for c in inp["chunks"])
+    x = np.arange(int(np.prod(shape))).reshape(shape)
+    d = da.from_array(x, chunks=chunks)
+    idx = _to_index(inp["index"], True)
+    val = _value(inp)
+    y = x.copy()
+    try:
+        y[_to_index(inp["index"], False)] = val
+    except (IndexError, ValueError, TypeError):
+        ctx.note("numpy-rejects")
+        return
+    v = da.asanyarray(val, dtype=x.dtype)
+    rec = _Recorder(v)
+    try:
+        dsk = setitem_array("out", d, idx, rec)
+        parsed, implied, reverse, positions = parse_assignment_indices(idx, shape)
+    except Exception as e:      # noqa: BLE001 - reported by section `plan`
+        ctx.note("setitem_array-raised-" + type(e).__name__)
+        return
+    if not all(isinstance(i, (slice, int)) or (isinstance(i, np.ndarray) and i.dtype != bool) for i in parsed):
+        ctx.note("vpieces-bool-index-not-modelled")
+        return
+    if 0 in implied:
+        ctx.note("vpieces-empty-selection")
+        return
+    vshape = list(np.shape(val))
+    nonint = [ax for ax, i in enumerate(parsed) if not isinstance(i, int)]
+    offset = len(nonint) - len(vshape)
+    # matched value axis (position in the value, length, reversed?) of every array axis
+    vax = {}
+    for j, ax in enumerate(nonint):
+        i = j - offset if offset >= 0 else j
+        vi = i if offset >= 0 else i - offset           # position in value's own axes
+        if offset >= 0 and i < 0:
+            vax[ax] = None
+        else:
+            vax[ax] = (vi, vshape[vi], ax in reverse)
+    full = list(_to_index(inp["index"], False))
+    if any(i is Ellipsis for i in full):
+        k = [i is Ellipsis for i in full].index(True)
+        full[k:k + 1] = [slice(None)] * (len(shape) - (len(full) - 1))
+    full += [slice(None)] * (len(shape) - len(full))
+    models = {}
+    for ax, ind in enumerate(parsed):
+        if isinstance(ind, slice):
+            enc = [Sym("sl"), int(ind.start), int(ind.stop), int(ind.step)]
+        elif isinstance(ind, int):
+            enc = [Sym("int"), ind]
+        else:
+            enc = [Sym("arr"), [int(t) for t in ind.tolist()]]
+        va = vax.get(ax)
+        m = unsym(ctx.lean(Sym("axispairs"), list(chunks[ax]), enc, Sym("none") if va is None else [va[1], bool(va[2])]))
+        models[ax] = m
+        # NumPy's own global pairing along this axis, from the ORIGINAL index
+        n = shape[ax]
+        orig = full[ax]
+        if isinstance(ind, int):
+            exp = [[ind, None]]
+        else:
+            sel = np.arange(n)[orig] if not isinstance(orig, list) else np.arange(n)[np.array(orig, dtype=int)]
+            L = len(sel)
+            if va is None:
+                exp = [[int(p), None] for p in sel]
+            else:
+                vpos = np.broadcast_to(np.arange(va[1]), (L,)) if va[1] in (1, L) else None
+                if vpos is None:
+                    ctx.note("vpieces-value-axis-mismatch")
+                    return
+                exp = [[int(p), int(q)] for p, q in zip(sel, vpos)]
+        ctx.eq("NumPy's (position, value position) pairs along an axis", sorted(m[1], key=repr), sorted(exp, key=repr))
+        if isinstance(ind, slice) and va is not None:
+            # clauses of value_indices_partition_nd on the model's concatenation (list equality incl. order)
+            cat = [p for blk in m[0] for p in blk]
+            rng_sel = list(range(ind.start, ind.stop, ind.step))
+            L = len(rng_sel)
+            want = [[p, (0 if va[1] == 1 else (L - 1 - r if va[2] else r))] for r, p in enumerate(rng_sel)]
+            ctx.eq("value pieces of all blocks concatenated", cat, want)
+    # ---- every touched block of the real plan
+    in_keys = list(flatten(d.__dask_keys__()))
+    calls = iter(rec.calls)
+    nblk = 0
+    for in_key in in_keys:
+        coords = in_key[1:]
+        task = dsk[("out",) + coords]
+        if not (isinstance(task, tuple) and len(task) == 4 and callable(task[0])):
+            continue
+        bi, vi = task[3], list(next(calls))
+        nblk += 1
+        if vi and vi[0] is Ellipsis:
+            vi = vi[1:]
+            lead = len(vshape) - len(vi)
+            ctx.branch("vpieces-ellipsis")
+        else:
+            lead = 0
+        for ax, b in enumerate(bi):
+            l0, l1 = _cum(chunks[ax])[coords[ax]]
+            va = vax.get(ax)
+            if isinstance(b, (int, np.integer)):
+                impl = [[l0 + int(b), None]]
+            elif va is None:
+                impl = [[int(p), None] for p in np.arange(l0, l1)[b]]
+            else:
+                entry = vi[va[0] - lead]
+                vp = np.arange(va[1])[entry]
+                mv = unsym(ctx.lean(Sym("vixeval"), va[1], _enc_vix(entry)))
+                ctx.eq("positions a value index reads", mv, [int(t) for t in np.atleast_1d(vp).tolist()])
+                # NumPy's own pairing inside the block: assign the value positions through the block index
+                sel = np.arange(l0, l1)[b]
+                probe = np.full(l1 - l0, -1)
+                try:
+                    paired = np.broadcast_to(vp, sel.shape)
+                    probe[b] = vp
+                except ValueError as e:
+                    ctx.fail("the value piece of a block does not fit the block's selection along an axis",
+                             observed=[list(coords), ax, [int(t) for t in sel], [int(t) for t in np.atleast_1d(vp)], repr(e)[:80]])
+                    return
+                impl = [[int(p), int(q)] for p, q in zip(sel, paired)]
+                last = {int(p): int(q) for p, q in impl}
+                if any(probe[p - l0] != q for p, q in last.items()):
+                    ctx.fail("NumPy's block assignment does not pair selection and piece position-wise", observed=probe.tolist())
+                if va[1] == 1:
+                    ctx.branch("vpieces-broadcast-axis")
+                    if any(q != 0 for _, q in impl):
+                        ctx.fail("a size-1 value axis is not read at index 0", observed=impl)
+                if va[2]:
+                    ctx.branch("vpieces-reversed-axis")
+            ctx.eq("pairs a block assigns along an axis", models[ax][0][coords[ax]], impl)
+    if nblk > 1:
+        ctx.branch("vpieces-multiblock")
+    if offset > 0:
+        ctx.branch("vpieces-value-lower-rank")
+    if any(isinstance(i, np.ndarray) for i in parsed):
+        ctx.branch("vpieces-int-array")
+    ctx.branch("vpieces-diffed")
+
+
+CASES = {"maskplan": case_maskplan, "maskapi": case_maskapi, "vpieces": case_vpieces}
 
 
 # --------------------------------------------------------------------------------------
@@ -395,3 +553,34 @@ def generate(ctx):
         if c["vkind"] == "zerod-pos":
             continue
         yield "maskapi", c
+    # (b) value pieces: the generator of section `plan` (NumPy indices), plus reversed / broadcast directed cases
+    from props.c21 import _rand_case
+    yield "vpieces", {"shape": [9], "chunks": [[4, 3, 2]], "index": [("slice", [7, 0, -2])], "vshape": [4]}
+    yield "vpieces", {"shape": [9], "chunks": [[4, 3, 2]], "index": [("slice", [7, 0, -2])], "vshape": [1]}
+    yield "vpieces", {"shape": [4, 5], "chunks": [[2, 2], [5]], "index": [("slice", [None, None, -1]), ("slice", [1, 3, None])],
+                      "vshape": [4, 1]}
+    for _ in range(ctx.n(160, 2500)):
+        c = _rand_case(rng, dask_idx=False, zeros=0.0)
+        if c and c["vshape"] is not None:
+            yield "vpieces", c
+    for _ in range(ctx.n(40, 600)):
+        n = rng.randint(2, 9)
+        ch = list(random_chunks(rng, n))
+        st = rng.choice([None, -1, -2, -3])
+        sl = [rng.choice([None] + list(range(-n, n))), rng.choice([None] + list(range(-n, n))), st]
+        L = len(range(*slice(*sl).indices(n)))
+        if L == 0:
+            continue
+        other = rng.randint(1, 3)
+        form = rng.randrange(3)
+        if form == 0:
+            yield "vpieces", {"shape": [n], "chunks": [ch], "index": [("slice", sl)], "vshape": [rng.choice([1, L])]}
+        elif form == 1:
+            yield "vpieces", {"shape": [other, n], "chunks": [list(random_chunks(rng, other)), ch],
+                              "index": [("slice", [None, None, rng.choice([None, -1])]), ("slice", sl)],
+                              "vshape": rng.choice([[L], [1], [other, L], [1, L], [other, 1], [1, 1, L]])}
+        else:
+            ind = [rng.randrange(-other, other) for _ in range(rng.randint(1, 3))]
+            yield "vpieces", {"shape": [n, other], "chunks": [ch, list(random_chunks(rng, other))],
+                              "index": [("slice", sl), ("list", ind)],
+                              "vshape": rng.choice([[L, len(ind)], [1, len(ind)], [L, 1], [len(ind)], [1]])}
